@@ -35,6 +35,17 @@ type vlFS struct {
 	del  *atomic.Int32 // > 0 while a DeleteTimeRange call is in progress
 	win  *vlWindow     // guard rounds: signalled at the first file read inside the index delete
 	ren  *vlRenGate    // signalled when the directory of channel 9 is about to be renamed
+	st   *vlStatGate   // gc-vs-writer rounds: runs a writer session inside GC's Stat of a data file
+}
+
+// vlStatGate is a scheduler gate at the Stat call garbage collection issues for a data file
+// after it decided that the file has no writer and before it starts collecting it.
+type vlStatGate struct {
+	armed atomic.Bool
+	fn    func()
+	// the converse window: runs a GC pass inside the writer pool's re-open of a data file
+	armedOpen atomic.Bool
+	fnOpen    func()
 }
 
 type vlRenGate struct {
@@ -59,6 +70,12 @@ func (f vlFS) nap(max int) {
 }
 
 func (f vlFS) Open(name string, flag int) (xfs.File, error) {
+	if f.st != nil && name == "1.domain" && flag&os.O_APPEND != 0 && f.st.armedOpen.CompareAndSwap(true, false) {
+		// the gate runs once the handle exists and before the caller has registered it
+		file, err := f.FS.Open(name, flag)
+		f.st.fnOpen()
+		return file, err
+	}
 	if len(name) > 3 && name[len(name)-3:] == "_gc" {
 		f.gc.Add(1)
 		f.nap(400)
@@ -85,12 +102,19 @@ func (f vlFS) Rename(a, b string) error {
 	return f.FS.Rename(a, b)
 }
 
+func (f vlFS) Stat(name string) (os.FileInfo, error) {
+	if f.st != nil && name == "1.domain" && f.st.armed.CompareAndSwap(true, false) {
+		f.st.fn()
+	}
+	return f.FS.Stat(name)
+}
+
 func (f vlFS) Sub(name string) (xfs.FS, error) {
 	sub, err := f.FS.Sub(name)
 	if err != nil {
 		return nil, err
 	}
-	return vlFS{FS: sub, seed: f.seed, n: f.n, gc: f.gc, del: f.del, win: f.win, ren: f.ren}, nil
+	return vlFS{FS: sub, seed: f.seed, n: f.n, gc: f.gc, del: f.del, win: f.win, ren: f.ren, st: f.st}, nil
 }
 
 type vlEvent struct {
@@ -251,6 +275,8 @@ func vlRun(seed int64, round int, hang *atomic.Bool) (evs []vlEvent, fatal strin
 	rnd := rand.New(rand.NewSource(seed*7919 + int64(round)))
 	c := vsConcFromSeed(seed, round*13+5)
 	c.NoEmpty = true
+	// gc-vs-writer rounds (structured, see below) need a first data file with room left
+	gcw := round%3 == 2
 	switch rnd.Intn(3) {
 	case 0:
 		c.FileCap = 0 // no rollover
@@ -259,10 +285,14 @@ func vlRun(seed int64, round int, hang *atomic.Bool) (evs []vlEvent, fatal strin
 		// concurrent sessions write to new files and GC may compact the old one meanwhile
 		c.FileCap = 64
 	}
+	if gcw {
+		c.FileCap = 0
+	}
+	stg := &vlStatGate{}
 	inDel := &atomic.Int32{}
 	win := &vlWindow{ch: make(chan struct{})}
 	ren := &vlRenGate{}
-	r := &vlRound{c: c, fs: vlFS{FS: xfs.NewMem(), seed: seed*131 + int64(round), n: &atomic.Int64{}, gc: &atomic.Int64{}, del: inDel, win: win, ren: ren}, written: map[string]map[int]int{"I": {}, "D": {}, "V": {}}}
+	r := &vlRound{c: c, fs: vlFS{FS: xfs.NewMem(), seed: seed*131 + int64(round), n: &atomic.Int64{}, gc: &atomic.Int64{}, del: inDel, win: win, ren: ren, st: stg}, written: map[string]map[int]int{"I": {}, "D": {}, "V": {}}}
 	db, err := Open(context.Background(), "", r.opts()...)
 	if err != nil {
 		return nil, "open: " + err.Error()
@@ -287,6 +317,9 @@ func vlRun(seed int64, round int, hang *atomic.Bool) (evs []vlEvent, fatal strin
 			cfg.AutoIndexPersistInterval = 5 * telem.Millisecond
 		}
 	}
+	// stepHook (gc-vs-writer rounds only) is called by a session after its open (step 0) and
+	// after its k-th write (step k)
+	var stepHook func(step int)
 	// session runs one writer session on all three channels: open, writes, commit, close
 	sessionOn := func(p string, chans []string, start int, chunks [][]int, auto bool) string {
 		keys := make([]ChannelKey, 0, len(chans))
@@ -302,7 +335,10 @@ func vlRun(seed int64, round int, hang *atomic.Bool) (evs []vlEvent, fatal strin
 			return "open failed: " + err.Error()
 		}
 		r.log(vlEvent{Ev: "ret", P: p, Res: "ok"})
-		for _, times := range chunks {
+		if stepHook != nil {
+			stepHook(0)
+		}
+		for k, times := range chunks {
 			id++
 			r.log(vlEvent{Ev: "call", P: p, Op: "write", Times: times, ID: id})
 			res, _ := r.write(w, chans, times, id)
@@ -310,6 +346,9 @@ func vlRun(seed int64, round int, hang *atomic.Bool) (evs []vlEvent, fatal strin
 			runtime.Gosched()
 			if res != "ok" {
 				break // a writer that reported an error is only closed
+			}
+			if stepHook != nil {
+				stepHook(k + 1)
 			}
 		}
 		if !auto {
@@ -330,7 +369,7 @@ func vlRun(seed int64, round int, hang *atomic.Bool) (evs []vlEvent, fatal strin
 	// removes that range from the index channel alone. Different channels, so inside C09's
 	// envelope; the index-delete guard and the writer's open must be ordered one way or the
 	// other: both succeeding has no serial explanation.
-	guard := rnd.Intn(2) == 0
+	guard := rnd.Intn(2) == 0 && !gcw
 	waitForDelete := rnd.Intn(4) != 0
 	// phase A (sequential): old data at abstract times 0,2,...,14
 	if msg := session("w", 0, [][]int{{0, 2, 4}, {6, 8}, {10, 12, 14}}, rnd.Intn(2) == 0); msg != "" {
@@ -342,192 +381,323 @@ func vlRun(seed int64, round int, hang *atomic.Bool) (evs []vlEvent, fatal strin
 		}
 	}
 	// phase B (concurrent)
-	var wg sync.WaitGroup
-	stop := make(chan struct{})
-	start := make(chan struct{})
-	wg.Add(1)
-	go func() { // writer: two sessions on fresh regions
-		defer wg.Done()
-		<-start
-		a1, a2 := rnd.Intn(2) == 0, rnd.Intn(2) == 0
-		if !guard {
-			_ = session("w", 16, [][]int{{16}, {18, 20}}, a1)
+	phaseB := func() string {
+		var wg sync.WaitGroup
+		stop := make(chan struct{})
+		start := make(chan struct{})
+		wg.Add(1)
+		go func() { // writer: two sessions on fresh regions
+			defer wg.Done()
+			<-start
+			a1, a2 := rnd.Intn(2) == 0, rnd.Intn(2) == 0
+			if !guard {
+				_ = session("w", 16, [][]int{{16}, {18, 20}}, a1)
+			}
+			if guard {
+				if waitForDelete {
+					// start the data-only session while the index delete is in progress
+					select {
+					case <-win.ch:
+					case <-time.After(50 * time.Millisecond):
+					}
+				}
+				_ = sessionOn("w", []string{"D", "V"}, 22, [][]int{{22, 24}, {26}}, a2)
+				_ = session("w", 16, [][]int{{16}, {18, 20}}, a1)
+			} else {
+				_ = session("w", 22, [][]int{{22, 24}, {26}}, a2)
+			}
+		}()
+		// deletes: every range holds at least one sample that is still present on every named
+		// channel, so that no outcome depends on how the code trims sample-free domain pieces
+		nDel := 3 + rnd.Intn(3)
+		var dels []vlEvent
+		sets := [][]string{{"D"}, {"V"}, {"D", "V"}}
+		if rnd.Intn(2) == 0 {
+			sets = [][]string{{"I", "D", "V"}}
+		}
+		left := map[string]map[int]bool{}
+		for _, ch := range all {
+			left[ch] = map[int]bool{0: true, 2: true, 4: true, 6: true, 8: true, 10: true, 12: true, 14: true}
+		}
+		for tries := 0; len(dels) < nDel && tries < 50; tries++ {
+			a := rnd.Intn(15)
+			b := a + 1 + rnd.Intn(min(5, 15-a))
+			cs := sets[rnd.Intn(len(sets))]
+			okAll := true
+			for _, ch := range cs {
+				has := false
+				for t := range left[ch] {
+					if a <= t && t < b {
+						has = true
+					}
+				}
+				okAll = okAll && has
+			}
+			if !okAll {
+				continue
+			}
+			for _, ch := range cs {
+				for t := range left[ch] {
+					if a <= t && t < b {
+						delete(left[ch], t)
+					}
+				}
+			}
+			dels = append(dels, vlEvent{Chans: cs, A: a, B: b})
 		}
 		if guard {
-			if waitForDelete {
-				// start the data-only session while the index delete is in progress
+			at := rnd.Intn(len(dels) + 1)
+			// a range that cuts the index domain (22..26), so that the delete has to resolve
+			// sample offsets by reading the index file between its checks and its update
+			g := [][2]int{{21, 25}, {22, 25}, {23, 27}, {23, 25}, {24, 27}}[rnd.Intn(5)]
+			gd := vlEvent{Chans: []string{"I"}, A: g[0], B: g[1]}
+			dels = append(dels[:at], append([]vlEvent{gd}, dels[at:]...)...)
+		}
+		wg.Add(1)
+		go func() { // deleter: ranges inside the old region only (b <= 15 < every new session start)
+			defer wg.Done()
+			<-start
+			for _, d := range dels {
+				keys := make([]ChannelKey, 0, 3)
+				for _, ch := range d.Chans {
+					keys = append(keys, vsKeys[ch])
+				}
+				vr := &vsRunner{c: c, fs: r.fs}
+				if vr.cutsInexactDomainTS(r, d.Chans, d.A, d.B) {
+					r.tainted.Store(true)
+				}
+				r.log(vlEvent{Ev: "call", P: "d", Op: "delete", Chans: d.Chans, A: d.A, B: d.B})
+				isGuard := guard && len(d.Chans) == 1 && d.Chans[0] == "I"
+				win.armed.Store(isGuard)
+				inDel.Add(1)
+				err := db.DeleteTimeRange(ctx, keys, telem.TimeRange{Start: c.ts(d.A), End: c.ts(d.B)})
+				inDel.Add(-1)
+				win.armed.Store(false)
+				res := "ok"
+				if err != nil {
+					res = "err:" + err.Error()
+				}
+				r.log(vlEvent{Ev: "ret", P: "d", Res: res})
+				runtime.Gosched()
+			}
+		}()
+		var bg sync.WaitGroup
+		bg.Add(1)
+		go func() { // garbage collection loop
+			defer bg.Done()
+			<-start
+			for {
 				select {
-				case <-win.ch:
-				case <-time.After(50 * time.Millisecond):
+				case <-stop:
+					return
+				default:
 				}
+				r.log(vlEvent{Ev: "call", P: "g", Op: "gc"})
+				g0 := r.fs.(vlFS).gc.Load()
+				err := db.garbageCollect(ctx, 4)
+				r.log(vlEvent{Ev: "ret", P: "g", Res: vsErrClass(err), Shr: r.fs.(vlFS).gc.Load() > g0})
+				time.Sleep(50 * time.Microsecond)
 			}
-			_ = sessionOn("w", []string{"D", "V"}, 22, [][]int{{22, 24}, {26}}, a2)
-			_ = session("w", 16, [][]int{{16}, {18, 20}}, a1)
-		} else {
-			_ = session("w", 22, [][]int{{22, 24}, {26}}, a2)
-		}
-	}()
-	// deletes: every range holds at least one sample that is still present on every named
-	// channel, so that no outcome depends on how the code trims sample-free domain pieces
-	nDel := 3 + rnd.Intn(3)
-	var dels []vlEvent
-	sets := [][]string{{"D"}, {"V"}, {"D", "V"}}
-	if rnd.Intn(2) == 0 {
-		sets = [][]string{{"I", "D", "V"}}
-	}
-	left := map[string]map[int]bool{}
-	for _, ch := range all {
-		left[ch] = map[int]bool{0: true, 2: true, 4: true, 6: true, 8: true, 10: true, 12: true, 14: true}
-	}
-	for tries := 0; len(dels) < nDel && tries < 50; tries++ {
-		a := rnd.Intn(15)
-		b := a + 1 + rnd.Intn(min(5, 15-a))
-		cs := sets[rnd.Intn(len(sets))]
-		okAll := true
-		for _, ch := range cs {
-			has := false
-			for t := range left[ch] {
-				if a <= t && t < b {
-					has = true
+		}()
+		bg.Add(1)
+		go func() { // reader loop: whatever it sees must have been written
+			defer bg.Done()
+			<-start
+			for {
+				select {
+				case <-stop:
+					return
+				default:
 				}
-			}
-			okAll = okAll && has
-		}
-		if !okAll {
-			continue
-		}
-		for _, ch := range cs {
-			for t := range left[ch] {
-				if a <= t && t < b {
-					delete(left[ch], t)
+				r.log(vlEvent{Ev: "call", P: "r", Op: "read"})
+				// read errors while writers/deletes run are tolerated; anomalies are observations
+				if _, anom, _ := r.content(); anom != "" && r.garbage.Load() == nil {
+					r.garbage.Store(anom)
 				}
+				r.log(vlEvent{Ev: "ret", P: "r", Res: "ok"})
+				time.Sleep(30 * time.Microsecond)
 			}
+		}()
+		bg.Add(1)
+		go func() { // unrelated channel create / delete
+			defer bg.Done()
+			<-start
+			x := Channel{Key: 9, Name: "X", DataType: telem.TimeStampT, IsIndex: true}
+			for i := 0; i < 4; i++ {
+				r.log(vlEvent{Ev: "call", P: "c", Op: "chan"})
+				e1 := db.CreateChannel(ctx, x)
+				// a second goroutine creates the same channel while DeleteChannel is moving its
+				// directory away (gate in the file-system wrapper; on a database that serialises
+				// the two, the create simply waits for the delete)
+				ren.ch = make(chan struct{})
+				ren.armed.Store(true)
+				raced := make(chan error, 1)
+				go func(gate chan struct{}) {
+					select {
+					case <-gate:
+					case <-time.After(20 * time.Millisecond):
+					}
+					raced <- db.CreateChannel(ctx, x)
+				}(ren.ch)
+				e2 := db.DeleteChannel(9)
+				<-raced
+				ren.armed.Store(false)
+				// both calls returned: whatever their order was, a channel 9 that exists is usable
+				if _, err := db.RetrieveChannel(ctx, 9); err == nil {
+					ts := c.ts(27) + telem.TimeStamp(1000+i)
+					if err := db.Write(ctx, ts, telem.UnaryFrame[ChannelKey](9, telem.NewSeriesV[telem.TimeStamp](ts))); err != nil {
+						r.chanBad.Store(fmt.Sprintf("channel 9 exists after a create raced a delete of it, but cannot be written: %v", err))
+					}
+				}
+				_ = db.DeleteChannel(9)
+				res := "ok"
+				if e1 != nil || e2 != nil {
+					res = fmt.Sprintf("err:%v/%v", e1, e2)
+				}
+				r.log(vlEvent{Ev: "ret", P: "c", Res: res})
+			}
+			_ = db.CreateChannel(ctx, x) // left in place for the in-memory / reopen comparison below
+		}()
+		done := make(chan struct{})
+		go func() { wg.Wait(); close(stop); bg.Wait(); close(done) }()
+		close(start)
+		select {
+		case <-done:
+		case <-time.After(120 * time.Second):
+			hang.Store(true)
+			buf := make([]byte, 1<<20)
+			n := runtime.Stack(buf, true)
+			return "HANG: concurrent round did not finish within 120s\n" + string(buf[:n])
 		}
-		dels = append(dels, vlEvent{Chans: cs, A: a, B: b})
+		return ""
 	}
-	if guard {
-		at := rnd.Intn(len(dels) + 1)
-		// a range that cuts the index domain (22..26), so that the delete has to resolve
-		// sample offsets by reading the index file between its checks and its update
-		g := [][2]int{{21, 25}, {22, 25}, {23, 27}, {23, 25}, {24, 27}}[rnd.Intn(5)]
-		gd := vlEvent{Chans: []string{"I"}, A: g[0], B: g[1]}
-		dels = append(dels[:at], append([]vlEvent{gd}, dels[at:]...)...)
-	}
-	wg.Add(1)
-	go func() { // deleter: ranges inside the old region only (b <= 15 < every new session start)
-		defer wg.Done()
-		<-start
-		for _, d := range dels {
-			keys := make([]ChannelKey, 0, 3)
-			for _, ch := range d.Chans {
-				keys = append(keys, vsKeys[ch])
+	// gc-vs-writer rounds: a time-range delete leaves tombstones in the first data file of
+	// every channel, the database is closed and reopened (no pooled writer handle on that
+	// file, which still has room), and a garbage collection pass is stopped at the Stat call
+	// it issues for the file after it found no writer on it: inside that window a writer
+	// session opens on the channels (it picks that very file), writes, commits and closes.
+	// GC then carries on. Whatever it decides, the session's committed samples must be
+	// readable afterwards, in memory and after another reopen.
+	phaseGCW := func() string {
+		nd := 1 + rnd.Intn(2)
+		for k := 0; k < nd; k++ {
+			a := rnd.Intn(6)
+			b := a + 3 + rnd.Intn(4)
+			if k == 1 {
+				a = 10 + rnd.Intn(2)
+				b = a + 3
 			}
 			vr := &vsRunner{c: c, fs: r.fs}
-			if vr.cutsInexactDomainTS(r, d.Chans, d.A, d.B) {
+			if vr.cutsInexactDomainTS(r, all, a, b) {
 				r.tainted.Store(true)
 			}
-			r.log(vlEvent{Ev: "call", P: "d", Op: "delete", Chans: d.Chans, A: d.A, B: d.B})
-			isGuard := guard && len(d.Chans) == 1 && d.Chans[0] == "I"
-			win.armed.Store(isGuard)
-			inDel.Add(1)
-			err := db.DeleteTimeRange(ctx, keys, telem.TimeRange{Start: c.ts(d.A), End: c.ts(d.B)})
-			inDel.Add(-1)
-			win.armed.Store(false)
+			r.log(vlEvent{Ev: "call", P: "d", Op: "delete", Chans: all, A: a, B: b})
+			err := db.DeleteTimeRange(ctx, []ChannelKey{vsKeyI, vsKeyD, vsKeyV}, telem.TimeRange{Start: c.ts(a), End: c.ts(b)})
 			res := "ok"
 			if err != nil {
 				res = "err:" + err.Error()
 			}
 			r.log(vlEvent{Ev: "ret", P: "d", Res: res})
-			runtime.Gosched()
 		}
-	}()
-	var bg sync.WaitGroup
-	bg.Add(1)
-	go func() { // garbage collection loop
-		defer bg.Done()
-		<-start
-		for {
-			select {
-			case <-stop:
-				return
-			default:
-			}
-			r.log(vlEvent{Ev: "call", P: "g", Op: "gc"})
-			g0 := r.fs.(vlFS).gc.Load()
-			err := db.garbageCollect(ctx, 4)
-			r.log(vlEvent{Ev: "ret", P: "g", Res: vsErrClass(err), Shr: r.fs.(vlFS).gc.Load() > g0})
-			time.Sleep(50 * time.Microsecond)
+		if err := db.Close(); err != nil {
+			return "close before gc: " + err.Error()
 		}
-	}()
-	bg.Add(1)
-	go func() { // reader loop: whatever it sees must have been written
-		defer bg.Done()
-		<-start
-		for {
-			select {
-			case <-stop:
-				return
-			default:
-			}
-			r.log(vlEvent{Ev: "call", P: "r", Op: "read"})
-			// read errors while writers/deletes run are tolerated; anomalies are observations
-			if _, anom, _ := r.content(); anom != "" && r.garbage.Load() == nil {
-				r.garbage.Store(anom)
-			}
-			r.log(vlEvent{Ev: "ret", P: "r", Res: "ok"})
-			time.Sleep(30 * time.Microsecond)
+		db2, err := Open(ctx, "", r.opts()...)
+		if err != nil {
+			return "reopen before gc: " + err.Error()
 		}
-	}()
-	bg.Add(1)
-	go func() { // unrelated channel create / delete
-		defer bg.Done()
-		<-start
-		x := Channel{Key: 9, Name: "X", DataType: telem.TimeStampT, IsIndex: true}
-		for i := 0; i < 4; i++ {
-			r.log(vlEvent{Ev: "call", P: "c", Op: "chan"})
-			e1 := db.CreateChannel(ctx, x)
-			// a second goroutine creates the same channel while DeleteChannel is moving its
-			// directory away (gate in the file-system wrapper; on a database that serialises
-			// the two, the create simply waits for the delete)
-			ren.ch = make(chan struct{})
-			ren.armed.Store(true)
-			raced := make(chan error, 1)
-			go func(gate chan struct{}) {
+		db = db2
+		r.db = db2
+		auto := rnd.Intn(2) == 0
+		if (round/3)%2 == 1 {
+			// the converse window: the writer session runs first and a whole GC pass is
+			// started inside the file controller's re-open of the data file. Code that holds
+			// its writer-pool lock across the re-open makes the pass wait (the gate gives up
+			// after 30 ms and the pass then runs concurrently with the rest of the session).
+			gcDone := make(chan struct{})
+			fired := false
+			stg.fnOpen = func() {
+				fired = true
+				go func() {
+					defer close(gcDone)
+					r.log(vlEvent{Ev: "call", P: "g", Op: "gc"})
+					g0 := r.fs.(vlFS).gc.Load()
+					err := db.garbageCollect(ctx, 4)
+					r.log(vlEvent{Ev: "ret", P: "g", Res: vsErrClass(err), Shr: r.fs.(vlFS).gc.Load() > g0})
+				}()
 				select {
-				case <-gate:
-				case <-time.After(20 * time.Millisecond):
-				}
-				raced <- db.CreateChannel(ctx, x)
-			}(ren.ch)
-			e2 := db.DeleteChannel(9)
-			<-raced
-			ren.armed.Store(false)
-			// both calls returned: whatever their order was, a channel 9 that exists is usable
-			if _, err := db.RetrieveChannel(ctx, 9); err == nil {
-				ts := c.ts(27) + telem.TimeStamp(1000+i)
-				if err := db.Write(ctx, ts, telem.UnaryFrame[ChannelKey](9, telem.NewSeriesV[telem.TimeStamp](ts))); err != nil {
-					r.chanBad.Store(fmt.Sprintf("channel 9 exists after a create raced a delete of it, but cannot be written: %v", err))
+				case <-gcDone:
+				case <-time.After(30 * time.Millisecond):
 				}
 			}
-			_ = db.DeleteChannel(9)
-			res := "ok"
-			if e1 != nil || e2 != nil {
-				res = fmt.Sprintf("err:%v/%v", e1, e2)
+			stg.armedOpen.Store(true)
+			_ = session("w", 16, [][]int{{16}, {18, 20}}, auto)
+			stg.armedOpen.Store(false)
+			if !fired {
+				r.tainted.Store(true) // the session never re-opened the old file: nothing exercised
+				return ""
 			}
-			r.log(vlEvent{Ev: "ret", P: "c", Res: res})
+			select {
+			case <-gcDone:
+			case <-time.After(120 * time.Second):
+				hang.Store(true)
+				return "HANG: garbage collection pass started inside a writer open did not finish within 120s"
+			}
+			return ""
 		}
-		_ = db.CreateChannel(ctx, x) // left in place for the in-memory / reopen comparison below
-	}()
-	done := make(chan struct{})
-	go func() { wg.Wait(); close(stop); bg.Wait(); close(done) }()
-	close(start)
-	select {
-	case <-done:
-	case <-time.After(120 * time.Second):
-		hang.Store(true)
-		buf := make([]byte, 1<<20)
-		n := runtime.Stack(buf, true)
-		return nil, "HANG: concurrent round did not finish within 120s\n" + string(buf[:n])
+		// the session opens (and, in half of the rounds, writes its first chunk) inside the
+		// window and goes on - further writes, commit, close - once the pass has returned
+		sessDone := make(chan struct{})
+		inside := make(chan struct{})
+		resume := make(chan struct{})
+		pauseAt := rnd.Intn(2)
+		fired := false
+		stepHook = func(step int) {
+			if step == pauseAt {
+				close(inside)
+				<-resume
+			}
+		}
+		stg.fn = func() {
+			fired = true
+			go func() {
+				defer close(sessDone)
+				_ = session("w", 16, [][]int{{16}, {18, 20}}, auto)
+			}()
+			select {
+			case <-inside:
+			case <-sessDone:
+			case <-time.After(3 * time.Second):
+				// the session cannot get that far inside this Stat call (the caller holds
+				// something the session needs): not the window this round is about
+				r.tainted.Store(true)
+			}
+		}
+		stg.armed.Store(true)
+		r.log(vlEvent{Ev: "call", P: "g", Op: "gc"})
+		g0 := r.fs.(vlFS).gc.Load()
+		err = db.garbageCollect(ctx, 4)
+		r.log(vlEvent{Ev: "ret", P: "g", Res: vsErrClass(err), Shr: r.fs.(vlFS).gc.Load() > g0})
+		stg.armed.Store(false)
+		if !fired {
+			r.tainted.Store(true) // GC never looked at the file: nothing was exercised
+			return ""
+		}
+		close(resume)
+		select {
+		case <-sessDone:
+		case <-time.After(120 * time.Second):
+			hang.Store(true)
+			return "HANG: writer session started inside a garbage collection pass did not finish within 120s"
+		}
+		return ""
+	}
+	if gcw {
+		if msg := phaseGCW(); msg != "" {
+			return nil, msg
+		}
+	} else if msg := phaseB(); msg != "" {
+		return nil, msg
 	}
 	obs := ""
 	if g := r.garbage.Load(); g != nil {
